@@ -308,6 +308,19 @@ def check_regexes(ctx: Ctx) -> None:
 
 
 # -------------------------------------------------------------------------- partial operations
+def _path_key(e: ast.AST) -> str | None:
+    """key of an access path: `x.a.b` (chain key) or a path with constant subscripts `x.a[0].b` (its text)"""
+    k = chain_key(e) if isinstance(e, (ast.Name, ast.Attribute)) else None
+    if k is not None:
+        return k
+    cur = e
+    while isinstance(cur, (ast.Attribute, ast.Subscript)):
+        if isinstance(cur, ast.Subscript) and not (isinstance(cur.slice, ast.Constant) or (isinstance(cur.slice, ast.UnaryOp) and isinstance(cur.slice.operand, ast.Constant))):
+            return None
+        cur = cur.value
+    return norm(e) if isinstance(cur, ast.Name) and isinstance(e, (ast.Attribute, ast.Subscript)) else None
+
+
 def _facts(expr: ast.AST, truth: bool) -> set[str]:
     """Keys proven non-empty when `expr` evaluates to `truth`."""
     out: set[str] = set()
@@ -323,7 +336,7 @@ def _facts(expr: ast.AST, truth: bool) -> set[str]:
         return out
     if isinstance(expr, ast.Call) and isinstance(expr.func, ast.Name) and expr.func.id == "bool" and len(expr.args) == 1 and not expr.keywords:
         return _facts(expr.args[0], truth)  # bool(x) is the truthiness of x
-    k = chain_key(expr) if isinstance(expr, (ast.Name, ast.Attribute)) else None
+    k = _path_key(expr)
     if k is not None:
         return {k} if truth else set()
     if isinstance(expr, ast.Compare) and len(expr.ops) == 1:
@@ -331,7 +344,7 @@ def _facts(expr: ast.AST, truth: bool) -> set[str]:
 
         def len_of(e: ast.AST) -> str | None:
             if isinstance(e, ast.Call) and isinstance(e.func, ast.Name) and e.func.id in ("len", "length") and e.args:
-                return chain_key(e.args[0]) if isinstance(e.args[0], (ast.Name, ast.Attribute)) else None
+                return _path_key(e.args[0])
             return None
 
         def const(e: ast.AST) -> int | None:
@@ -445,7 +458,7 @@ def check_subscripts(ctx: Ctx) -> None:
         flow = prog.flow(fi)
         for sub in subs:
             base = sub.value
-            key = chain_key(base) if isinstance(base, (ast.Name, ast.Attribute)) else None
+            key = _path_key(base)
             txt = norm(sub)
             n_sub += 1
             okey = f"{fi.qual} :: {txt}"
